@@ -46,6 +46,7 @@ type ScConf struct {
 	IdleSilent  [][]int `json:"idle_silent"`
 	IdleActive  [][]int `json:"idle_active"`
 	SkipHbRate  bool   `json:"skip_hb_rate"`
+	ReuseMsgs   bool   `json:"reuse_msgs"` // writer goroutines reuse one message struct, changing it between calls
 	Sid         int    `json:"sid"`
 }
 
@@ -54,6 +55,7 @@ type ScEndpoint struct {
 	SerialFails int    `json:"serial_fails"`
 	LMode       string `json:"lmode"` // tcp_client: initial behaviour of the fake server (accept | refuse | accept_close)
 	Drain       bool   `json:"drain"` // custom: data queued before Close is still readable after Close (like a pipe)
+	ErrWithData bool   `json:"err_with_data"` // custom: an injected read error is returned together with the last bytes (n > 0, err != nil)
 }
 
 type ScItem struct {
@@ -124,6 +126,8 @@ type ctlRWC struct {
 	wcount int
 	failAt int
 	drain  bool  // queued data stays readable after Close
+	errWithData bool
+	failUntil   int // writes up to this call number fail ("failn" mode)
 	okCnt  int64 // completed writes (pacing only)
 	sick   bool  // a write was blocked or failed: excluded from pacing
 }
@@ -155,6 +159,12 @@ func (c *ctlRWC) Read(b []byte) (int, error) {
 				c.inq = c.inq[1:]
 				c.taken++
 			}
+			if c.errWithData && len(c.rerr) > 0 && c.rerrAt[0] <= c.taken {
+				// io.Reader allows the last bytes and the error in one call
+				err := c.rerr[0]
+				c.rerr, c.rerrAt = c.rerr[1:], c.rerrAt[1:]
+				return n, err
+			}
 			return n, nil
 		}
 		c.cond.Wait()
@@ -184,6 +194,10 @@ func (c *ctlRWC) setMode(mode string, at int) {
 		c.failAt = c.wcount + at
 		c.wmode = "ok"
 	}
+	if mode == "failn" {
+		c.failUntil = c.wcount + at
+		c.wmode = "ok"
+	}
 	if mode == "block" && at > 0 {
 		c.failAt = -(c.wcount + at) // negative: block from that call on
 		c.wmode = "ok"
@@ -200,7 +214,7 @@ func (c *ctlRWC) Write(b []byte) (int, error) {
 		c.wmode = "block"
 		c.failAt = 0
 	}
-	if c.failAt > 0 && k == c.failAt {
+	if (c.failAt > 0 && k == c.failAt) || k <= c.failUntil {
 		c.sick = true
 		c.mu.Unlock()
 		c.p.rec.Put(M{"e": "TWFail", "ep": c.ep, "n": len(b), "closed": false, "t": c.p.ms()})
@@ -274,12 +288,15 @@ type player struct {
 
 	peers     map[[2]int]net.Conn
 	listeners map[int]net.Listener // fake servers for client endpoints
+	hangFds   map[int]int          // raw listening sockets whose accept queue is kept full: connects to them hang
+	hangConns map[int][]net.Conn
 	lmode     map[int]string
 	serialFailsLeft map[int]int
 	peerSeq   map[int]int
 	peerEnded map[[2]int]bool
 	serials   []*ctlRWC
 	lastAct   int64
+	reuse     map[int]*common.MessageNamedValueInt
 	expect    map[int]int64 // frames the harness expects on each custom endpoint (pacing only, never a verdict)
 }
 
@@ -728,7 +745,8 @@ func cmdNode(o opts) {
 		nInst: map[int]int{}, opened: map[[2]int]bool{}, closedEv: map[[2]int]bool{}, gates: map[string]*gate{},
 		consumerOn: true, evClosed: make(chan struct{}), closeDone: make(chan struct{}), writers: map[int]chan func(){},
 		peers: map[[2]int]net.Conn{}, listeners: map[int]net.Listener{}, lmode: map[int]string{}, serialFailsLeft: map[int]int{},
-		peerSeq: map[int]int{}, expect: map[int]int64{}, peerEnded: map[[2]int]bool{}}
+		peerSeq: map[int]int{}, expect: map[int]int64{}, peerEnded: map[[2]int]bool{},
+		reuse: map[int]*common.MessageNamedValueInt{}, hangFds: map[int]int{}, hangConns: map[int][]net.Conn{}}
 	p.consCond = sync.NewCond(&p.mu)
 	p.pauseReq = make(chan struct{})
 	p.rec.Flush = true
